@@ -1069,7 +1069,9 @@ fn parsing_canonical_form(schema: &JsonValue, defined_names: &mut HashSet<String
         JsonValue::Object(map) => pcf_map(map, defined_names),
         JsonValue::String(s) => pcf_string(s),
         JsonValue::Array(v) => pcf_array(v, defined_names),
-        json => panic!("got invalid JSON value for canonical form of schema: {json}"),
+        // Only reachable through a custom attribute that reuses the name of a reserved one
+        // (e.g. `"order": 7` on a map): it is not a schema, keep its JSON text.
+        json => json.to_string(),
     }
 }
 
@@ -1127,10 +1129,12 @@ fn pcf_map(schema: &Map<String, JsonValue>, defined_names: &mut HashSet<String>)
         // Strip off quotes surrounding "size" type, if they exist ([INTEGERS] rule).
         if k == "size" || k == "precision" || k == "scale" {
             let i = match v.as_str() {
-                Some(s) => s
-                    .parse::<i64>()
-                    .expect("Only valid schemas are accepted!")
-                    .to_string(),
+                // A quoted integer is unquoted; any other string can only be a custom attribute
+                // that reuses this name (e.g. `"size": "abc"` on an array) and stays a string.
+                Some(s) => match s.parse::<i64>() {
+                    Ok(i) => i.to_string(),
+                    Err(_) => pcf_string(s),
+                },
                 // A JSON number is already unquoted; it may exceed `i64::MAX` (a fixed `size` is a `u64`).
                 None => v.to_string(),
             };
